@@ -740,6 +740,15 @@ func c05ReadErr(c *Ctx, p *Prog, rule string) {
 				fs = append(fs, ef)
 			}
 			ok := false
+			// the loop is re-entered under "carried error == nil" where the carried error can only be
+			// nil or a non-sentinel error of readPackets: a fatal error stops it
+			for _, f := range ff.NC(E.Block()) {
+				if x, isNil, k := FactNilCmp(f); k && isNil {
+					if _, isPhi := x.(*ssa.Phi); isPhi && fatalWeb(p, ff, x, E, sent, map[*ssa.Phi]bool{}) {
+						ok = true
+					}
+				}
+			}
 			for _, f := range fs {
 				if x, isNil, k := FactNilCmp(f); k && isNil && unspill(x) == ssa.Value(E) {
 					ok = true
@@ -806,4 +815,46 @@ func storeBetween(p *Prog, a, b ssa.Instruction, k FieldKey) bool {
 		}
 	})
 	return found
+}
+
+// fatalWeb: the merged error w can only be nil or the error e of the
+// readPackets call on a path where e is known not to be a retry sentinel:
+// "w != nil" then means a fatal error is in hand, "w == nil" that none is.
+func fatalWeb(p *Prog, ff *FuncFacts, w ssa.Value, e ssa.Value, sent map[*ssa.Global]bool, seen map[*ssa.Phi]bool) bool {
+	phi, ok := w.(*ssa.Phi)
+	if !ok || seen[phi] {
+		return ok
+	}
+	seen[phi] = true
+	for i, ed := range phi.Edges {
+		if isNilConst(ed) {
+			continue
+		}
+		if sub, isPhi := ed.(*ssa.Phi); isPhi {
+			if !fatalWeb(p, ff, sub, e, sent, seen) {
+				return false
+			}
+			continue
+		}
+		if unspill(ed) != e {
+			return false
+		}
+		pred := phi.Block().Preds[i]
+		fs := append([]Fact{}, ff.NC(pred)...)
+		if ef, ok := edgeFact(pred, phi.Block()); ok {
+			fs = append(fs, ef)
+		}
+		notSentinel := hasFact(fs, func(f Fact) bool {
+			call, ok := p.FactCallBool(f, "errors.Is")
+			if !ok || f.Pol || unspill(call.Common().Args[0]) != e {
+				return false
+			}
+			g, isG := sentinelGlobal(unspill(call.Common().Args[1]))
+			return isG && sent[g]
+		})
+		if !notSentinel {
+			return false
+		}
+	}
+	return true
 }
